@@ -66,6 +66,12 @@ def gen(tier, rng):
         for off in (0, 3, 7):
             for op in ("ue", "se"):
                 cases.append(mk_case(rng, [(op, [0] * z + [1] + [1] * 8)], off, kinds[z % 4]))
+    # ... every count up to 600 (a zero counter narrowed to 8 bits wraps at 256, 512) and around 2^10..2^16
+    zs = list(range(32, 600)) + [z + d for k in range(10, 17 if tier == "quick" else 19) for z in [1 << k] for d in (-1, 0, 1, 2, 7, 31, 32)]
+    for z in zs:
+        op = "ue" if z % 2 else "se"
+        suffix = [rng.getrandbits(1) for _ in range(z % 256 % 40)] + [1] * 8
+        cases.append(mk_case(rng, [(op, [0] * z + [1] + suffix)], z % 8, kinds[z % 4]))
     # 4. truncation at every bit of a codeword (after one good read)
     for k in list(range(0, 9)) + [15, 16, 17, 30, 31]:
         s = rng.getrandbits(k) if k else 0
